@@ -8,6 +8,7 @@
 package main
 
 import (
+	"bytes"
 	"encoding/json"
 	"fmt"
 	"os"
@@ -34,6 +35,9 @@ func main() {
 		specDir = d
 	}
 	loadKnownFindings()
+	if os.Args[1] == "c08-worker" {
+		os.Exit(c08Worker(os.Args[2:]))
+	}
 	if os.Args[1] == "c14-worker" {
 		os.Exit(c14Worker(os.Args[2:]))
 	}
@@ -75,7 +79,7 @@ func main() {
 }
 
 func runSeq(p *SeqProfile, tier string, seed int64, scratch string, t0 time.Time) int {
-	r := &SeqRun{P: p, Tier: tier, Seed: seed, Scratch: scratch, hists: map[int]*History{}, hhists: map[int][]byte{}, fcases: map[int]frameCase{}, dcases: map[int]bool{}, ncases: map[int]*ncaseRef{}, Counts: map[string]int{},
+	r := &SeqRun{P: p, Tier: tier, Seed: seed, Scratch: scratch, hists: map[int]*History{}, hhists: map[int][]byte{}, fcases: map[int]frameCase{}, dcases: map[int]bool{}, ncases: map[int]*ncaseRef{}, chists: map[int]string{}, Counts: map[string]int{},
 		Sigs: map[string]struct{}{}, KFHits: map[string]int{}}
 	if olds, _ := filepath.Glob(fmt.Sprintf("/verif/replays/%s-*.json", p.Prop)); len(olds) > 0 {
 		for _, o := range olds {
@@ -187,6 +191,35 @@ func replayFile(path string) int {
 		fmt.Fprintln(os.Stderr, err)
 		return 2
 	}
+	var raw struct {
+		Lin    json.RawMessage `json:"lin_history"`
+		Report string          `json:"report"`
+		Prop   string          `json:"property"`
+	}
+	json.Unmarshal(b, &raw)
+	if raw.Report != "" {
+		fmt.Printf("replay: a data race report cannot be re-executed deterministically; the recorded report:\n%s\nVIOLATION property=%s replay=%s\n", raw.Report, raw.Prop, path)
+		return 1
+	}
+	if raw.Lin != nil {
+		scratch, _ := os.MkdirTemp("/dev/shm", "klev-verif-")
+		defer os.RemoveAll(scratch)
+		one := filepath.Join(scratch, "one.ndjson")
+		var compact bytes.Buffer
+		json.Compact(&compact, raw.Lin)
+		writeLines(one, []string{compact.String()})
+		bad, run := judgeLin(one, scratch)
+		if run.Infra != nil {
+			fmt.Fprintln(os.Stderr, "INFRA:", run.Infra)
+			return 2
+		}
+		if len(bad) == 0 {
+			fmt.Println("replay: the history has a linearization (no violation)")
+			return 0
+		}
+		fmt.Printf("VIOLATION property=%s replay=%s\n  the recorded history has no linearization\n", raw.Prop, path)
+		return 1
+	}
 	var v Violation
 	if err := json.Unmarshal(b, &v); err != nil {
 		fmt.Fprintln(os.Stderr, err)
@@ -199,7 +232,7 @@ func replayFile(path string) int {
 	}
 	scratch, _ := os.MkdirTemp("/dev/shm", "klev-verif-")
 	defer os.RemoveAll(scratch)
-	r := &SeqRun{P: p, Scratch: scratch, Tier: "quick", Seed: 1, hists: map[int]*History{}, hhists: map[int][]byte{}, fcases: map[int]frameCase{}, dcases: map[int]bool{}, ncases: map[int]*ncaseRef{}, Counts: map[string]int{}, Sigs: map[string]struct{}{}, KFHits: map[string]int{}}
+	r := &SeqRun{P: p, Scratch: scratch, Tier: "quick", Seed: 1, hists: map[int]*History{}, hhists: map[int][]byte{}, fcases: map[int]frameCase{}, dcases: map[int]bool{}, ncases: map[int]*ncaseRef{}, chists: map[int]string{}, Counts: map[string]int{}, Sigs: map[string]struct{}{}, KFHits: map[string]int{}}
 	ok, line, ev := r.replayAny(&v)
 	if len(r.Infra) > 0 {
 		fmt.Fprintln(os.Stderr, "INFRA:", r.Infra)
